@@ -258,6 +258,31 @@ pub fn check_pos(ctx: &mut Ctx, mp: &MPos, b: &Board) {
         }
         ctx.feature("chain_histories");
     }
+    // the null move through the unchecked primitives and through the chain (observer + boundary)
+    if !mp.in_check() {
+        let r = crate::ctx::catch(|| {
+            let mut bb = b.clone();
+            let u = unsafe { moves::make_move_unchecked(&mut bb, owlchess::Move::NULL) };
+            let mid = full(&bb) == full_from_scratch(bb.raw());
+            unsafe { moves::unmake_move_unchecked(&mut bb, owlchess::Move::NULL, u) };
+            let mut ch = MoveChain::new(b.clone());
+            unsafe { ch.push_unchecked(owlchess::Move::NULL) };
+            let mid2 = full(ch.last()) == full_from_scratch(ch.last().raw());
+            ch.pop();
+            (mid && mid2, bb, ch)
+        });
+        match r {
+            Ok((mid_ok, bb, ch)) => {
+                ctx.feature("null_moves");
+                if !mid_ok {
+                    ctx.violation("derived_state_after_null_move", &case, "stored hash or sets differ from recomputation after a null move");
+                }
+                boundary(ctx, &bb, &case, "after_null_undo");
+                boundary(ctx, ch.last(), &case, "after_null_pop");
+            }
+            Err(msg) => ctx.violation(&format!("panic:null:{}", crate::ctx::panic_site(&msg)), &case, &msg),
+        }
+    }
     // nested unchecked apply/undo with transient illegal states (observer checks every step)
     let r = crate::ctx::catch(|| {
         let mut bb = b.clone();
